@@ -4,7 +4,6 @@ import (
 	"encoding/json"
 	"fmt"
 	"math/big"
-	"sort"
 	"strings"
 
 	"github.com/Masterminds/semver/v3"
@@ -309,6 +308,7 @@ func (p *rpcProver) verify(tag string, res any, b *chaingen.Block, req *proofReq
 		return
 	}
 	var ses []PEntry
+	inOrder := true
 	for i := range sp {
 		es, err := parseNodes(sp[i])
 		if err != nil {
@@ -316,6 +316,22 @@ func (p *rpcProver) verify(tag string, res any, b *chaingen.Block, req *proofReq
 			return
 		}
 		ses = append(ses, es...)
+		// observation only (never a verdict, never logged): does list i belong to requested contract i?
+		if mc := post.Contracts[req.storage[i].addr]; mc != nil && len(mc.Storage) > 0 {
+			root := refstate.StorageRoot(mc)
+			for j := range req.storage[i].keys {
+				if _, err := RefVerify(&root, &req.storage[i].keys[j], es, trieHeight, refmpt.Pedersen); err != nil {
+					inOrder = false
+				}
+			}
+		}
+	}
+	if len(sp) >= 2 {
+		if inOrder {
+			c.Probe("rpc_storage_proof_lists_in_request_order")
+		} else {
+			c.Probe("rpc_storage_proof_lists_permuted")
+		}
 	}
 	if !checkHashes("storage", ses, refmpt.Pedersen) {
 		return
@@ -497,5 +513,4 @@ func rpcProofRun(c *sim.Ctx, k *Collector) {
 	p.round()
 	c.Nontrivial = p.served > 0 && (w.Reverts+w.Restarts) > 0
 	c.Sample = map[string]any{"blocks": len(w.M.Chain), "reverted": len(w.M.Reverted), "proof_rounds": p.rounds, "proofs_verified": p.served}
-	_ = sort.Strings
 }
